@@ -274,3 +274,32 @@ def monitor(obs):
 
 def outcome(obs):
     return (tuple(repr(s) for s in obs["samplers"]), tuple((e[1], round(e[2], 12)) for e in obs["log"] if e[0] == "learn"))
+
+
+def controlled(fn, prefix=(), mode="sync", horizon=20000):
+    """Run fn() in the calling thread under a Controller (the RL scheduler's queues/threads are virtual once install()
+    has run). Returns (controller, value, exception, leaked thread names)."""
+    install()
+    tracer = vt.make_line_tracer(["black_it/schedulers"]) if mode == "line" else None
+    ctl = vt.Controller(prefix, horizon=horizon)
+    vt.set_controller(ctl, tracer)
+    val, exc = None, None
+    try:
+        if tracer is not None:
+            sys.settrace(tracer)
+        val = fn()
+    except vt.Abort as e:
+        exc = e
+    except (HarnessBroken, vt.Divergence):
+        raise
+    except BaseException as e:  # noqa: BLE001
+        exc = e
+    finally:
+        sys.settrace(None)
+        ctl.leaked = []
+        ctl.finish_main()
+        leaked = list(ctl.leaked)
+        vt.set_controller(None)
+    if ctl.aborted and str(ctl.aborted).startswith("watchdog"):
+        raise HarnessBroken(ctl.aborted)
+    return ctl, val, exc, leaked
